@@ -63,8 +63,17 @@ def make_specs(ctx):
             P = 0 if H == 0 else rng.choice([0, 1, 3, 2 * H + 1, 3 * H + 2, 37])
             add(H, P, subset, AB=rng.random() < .5, shear=rng.random() < .3, conformity=rng.random() < .5, ranks=rng.random() < .5,
                 velbias=True, rsd=rng.random() < .7)
+    # a run with many threads costs seconds on a loaded machine: the quick tier sweeps all of 1..16 on one case per size
+    # and a spread of thread counts on the others
+    seen_full = set()
+    for s in specs:
+        if not ctx.quick() or (s['H'] in (2, 5, 16, 17) and s['H'] not in seen_full and len(s['subset']) == 3):
+            s['threads'] = THREADS
+            seen_full.add(s['H'])
+        else:
+            s['threads'] = [1, 2, 3, 7, 16]
     if not ctx.quick():
-        for _ in range(40):
+        for _ in range(25):
             H = rng.randint(0, 120)
             add(H, 0 if H == 0 else rng.randint(0, 300), rng.choice(c09.SUBSETS), AB=True, conformity=True, ranks=rng.random() < .5,
                 velbias=True, rsd=True, origin=rng.random() < .3)
@@ -87,7 +96,7 @@ def impl_threads(payload):
             rec['sizes'] = {T: [int(o['Ncent']), int(len(o['x']))] for T, o in ref.items()}
             if viol is not None:
                 rec['violation'] = dict(viol, n=1, what='single-thread catalogue violates the HOD rule (C09): ' + viol['what'])
-            for n in payload['threads']:
+            for n in (payload.get('threads') or spec.get('threads') or THREADS):
                 if n == 1 or rec['violation'] is not None:
                     continue
                 out = c09.run_catalog(case, Nthread=n)
@@ -233,16 +242,27 @@ def explore(ctx):
     table_payload = dict(Hmax=4096, nmax=128, samples=[[ctx.rng.randint(0, 4096), ctx.rng.randint(1, 128)] for _ in range(60)]
                          + [[0, 1], [0, 16], [1, 16], [5, 2], [15, 16], [17, 16], [3, 6], [5, 10]])
     jobs = {
-        'threads': ('impl_threads', dict(specs=specs, threads=THREADS, want_model_inputs=True, model_threads=model_threads), None),
-        'threads_bc': ('impl_threads', dict(specs=specs, threads=[1, 2, 3, 5, 16] if ctx.quick() else THREADS), {'NUMBA_BOUNDSCHECK': '1'}),
+        'threads': ('impl_threads', dict(specs=specs, want_model_inputs=True, model_threads=model_threads), None),
+        'threads_bc': ('impl_threads', dict(specs=specs, threads=[1, 3, 16] if ctx.quick() else THREADS), {'NUMBA_BOUNDSCHECK': '1'}),
         'concat': ('impl_concat', dict(cases=ccases), None),
         'concat_bc': ('impl_concat', dict(cases=ccases), {'NUMBA_BOUNDSCHECK': '1'}),
         'tables': ('impl_tables', table_payload, None),
         'search': ('impl_search', dict(seed=ctx.seed, sizes=[[0, 0], [0, 5], [5, 0], [1, 7], [10, 33], [100, 257]]), None),
     }
     results = {}
+    import time
+    timing = {}
+
+    def timed(k, fn, pl, envx):
+        t0 = time.time()
+        try:
+            return ctx.run_impl('harness.c10', fn, pl, envx)
+        finally:
+            timing[k] = round(time.time() - t0, 1)
+
+    t_start = time.time()
     with cf.ThreadPoolExecutor(max_workers=4) as ex:
-        futs = {k: ex.submit(ctx.run_impl, 'harness.c10', fn, pl, envx) for k, (fn, pl, envx) in jobs.items()}
+        futs = {k: ex.submit(timed, k, fn, pl, envx) for k, (fn, pl, envx) in jobs.items()}
         for k, f in futs.items():
             try:
                 results[k] = f.result()
@@ -250,7 +270,36 @@ def explore(ctx):
                 results[k] = None
                 ctx.notes.append(f'{k} run died: {str(e)[:300]}')
 
+    timing['impl_total'] = round(time.time() - t_start, 1)
     counterexamples, seen = [], set()
+    if results.get('threads') is None or results.get('threads_bc') is None:
+        # a kernel that writes out of bounds kills the interpreter: pin the failure to an input, one fresh interpreter each
+        for s, r in c09.probe_crash(ctx, specs, module='harness.c10', fn='impl_threads', extra={'threads': [1, 2, 3, 16]}):
+            if r['violation'] is not None and key_of(s, r['violation']) not in seen:
+                seen.add(key_of(s, r['violation']))
+                counterexamples.append(dict(
+                    key=key_of(s, r['violation']), what=r['violation']['what'] + ' [crash-probe, NUMBA_BOUNDSCHECK=1]',
+                    size=s['H'] + s['P'], input=r.get('explicit') or {'spec': s}, impl_result=r['violation'],
+                    expected='a catalogue identical to the Nthread = 1 run; no access outside the arrays',
+                    predicate='gen_gal_cat(..., Nthread=n) == gen_gal_cat(..., Nthread=1) for n = 1..16'))
+    for mode, envx in (('concat', None), ('concat_bc', {'NUMBA_BOUNDSCHECK': '1'})):
+        if results.get(mode) is None:
+            cases = list(ccases)
+            for _ in range(10):
+                if len(cases) <= 1:
+                    break
+                half = cases[:len(cases) // 2]
+                try:
+                    rr = ctx.run_impl('harness.c10', 'impl_concat', dict(cases=half), envx)
+                    failed = any(not r['equal'] for r in rr)
+                except Exception:  # noqa: BLE001
+                    failed = True
+                cases = half if failed else cases[len(cases) // 2:]
+            n1, n2, n, kind = cases[0]
+            counterexamples.append(dict(
+                key=f'fast_concatenate:N1={n1}:N2={n2}:Nthread={n}', what=f'the interpreter died in fast_concatenate [{mode}]',
+                size=n1 + n2, input={'concat': cases[0]}, impl_result='interpreter died (bisected)',
+                expected='np.concatenate((array1, array2))', predicate='fast_concatenate(a1, a2, n) == a1 ++ a2'))
 
     def report(key, what, size, inp, impl, expected, predicate):
         if key not in seen:
@@ -266,8 +315,8 @@ def explore(ctx):
         res = results.get(mode)
         if res is None:
             continue
-        nthr = len(jobs[mode][1]['threads'])
         for s, r in zip(specs, res):
+            nthr = len(jobs[mode][1].get('threads') or s.get('threads') or THREADS)
             evaluations += nthr
             dist['outcomes'][r['outcome']] = dist['outcomes'].get(r['outcome'], 0) + 1
             if mode == 'threads':
@@ -340,7 +389,8 @@ def explore(ctx):
                     continue
                 a1 = [i * 3 + 1000 for i in range(n1)]
                 a2 = [i * 5 + 7000000 for i in range(n2)]
-                inp = coqio.tup([coqio.zlist(a1), coqio.zlist(a2), coqio.z(n), coqio.zlist(r['h1']), coqio.zlist(r['h2'])])
+                inp = '(' + coqio.tup([coqio.zlist(a1), coqio.zlist(a2), coqio.z(n), coqio.zlist(r['h1']), coqio.zlist(r['h2'])]) \
+                    + ' : Abacus.C10.Run.ccase)'
                 nwrites = 0 if (n1 == 0 or n2 == 0) else n1 + n2
                 terms.append(coqio.tup([inp, coqio.VL([coqio.VLZ(r['value']), coqio.VZ(nwrites)])]))
                 owners.append(r['case'])
@@ -368,7 +418,8 @@ def explore(ctx):
             for b in bad[:3]:
                 mismatches.append({'what': 'a real block table fails good_hstart', 'table': tb['samples'][b]})
         if se is not None:
-            st = [coqio.tup([coqio.tup([coqio.zlist(r['a']), coqio.zlist(r['b'])]), coqio.VL([coqio.VZ(v) for v in r['r']])])
+            st = [coqio.tup(['(' + coqio.tup([coqio.zlist(r['a']), coqio.zlist(r['b'])]) + ' : list Z * list Z)',
+                             coqio.VL([coqio.VZ(v) for v in r['r']])])
                   for r in se if len(r['a']) + len(r['b']) <= 60]
             imp = IMPORTS + '\nDefinition run_ss (c : list Z * list Z) : val := vres (fun l => VL (map (vopt VZ) l)) (searchsorted_parallel (fst c) (snd c)).'
             bad, err = coq.eval_mismatches(ctx.scratch, 'c10ss', imp, 'run_ss', st, chunk=300)
@@ -388,7 +439,7 @@ def explore(ctx):
                 'H <= 4096, n <= 128; non-trivial = at least two galaxies, distinct by (H, P, subset)',
         'samples': [{'spec': specs[i], 'sizes': (comp[i].get('sizes') if comp else None)} for i in (0, len(specs) // 2, len(specs) - 1)],
         'traces_validated_against_impl': validated, 'exhaustive': False, 'input_distribution': dist,
-        'mismatches': mismatches, 'counterexamples': counterexamples,
+        'mismatches': mismatches, 'counterexamples': counterexamples, 'timing_s': dict(timing, total=round(time.time() - t_start, 1)),
     }
 
 
